@@ -18,7 +18,7 @@ KNOWN_CLASS = {"unseen-local": "F18b", "monitor-not-closed-local": "F18a", "swit
 
 def load_known():
     known = {k["id"]: k for k in vlib.load_known("C18")}
-    p = os.path.join(vlib.VERIF, "notes", "C18.findings.json")
+    p = ""      # only the committed known-findings.json is consulted at run time
     if os.path.exists(p):
         for e in json.load(open(p)):
             if e.get("property") == "C18" and e.get("status") == "known":
